@@ -59,3 +59,130 @@ package types
 //@   ensures r.Round == proposal.Round
 //@   ensures r.POLRound == proposal.PolRound
 //@   ensures r.Timestamp == proposal.Timestamp
+
+// ---------------------------------------------------------------- validator set basics (C02 C12)
+
+//@ spec func sumPow(vals []*Validator, n int) int = ite(n <= 0, 0, sumPow(vals, n-1) + vals[n-1].VotingPower)
+
+// wfVals: members non-nil with positive power; total within the cap; cache is 0 or the sum.
+//@ spec func wfVals(vs *ValidatorSet) bool = vs != nil && (forall i int :: 0 <= i && i < len(vs.Validators) ==> vs.Validators[i] != nil && vs.Validators[i].VotingPower >= 0) && (forall i int :: 0 <= i && i <= len(vs.Validators) ==> 0 <= sumPow(vs.Validators, i) && sumPow(vs.Validators, i) <= 1152921504606846975) && (vs.totalVotingPower == 0 || vs.totalVotingPower == sumPow(vs.Validators, len(vs.Validators)))
+
+//@ func (vs *ValidatorSet) updateTotalVotingPower()
+//@   for C02 C12
+//@   requires wfVals(vs)
+//@   modifies vs.totalVotingPower
+//@   ensures vs.totalVotingPower == sumPow(vs.Validators, len(vs.Validators))
+//@   loop 1:
+//@     invariant 0 <= iter && iter <= len(vs.Validators)
+//@     invariant sum == sumPow(vs.Validators, iter)
+
+//@ func (vs *ValidatorSet) TotalVotingPower() (r int64)
+//@   for C02 C12
+//@   requires wfVals(vs)
+//@   modifies vs.totalVotingPower
+//@   ensures r == sumPow(vs.Validators, len(vs.Validators)) && 0 <= r && r <= 1152921504606846975
+//@   ensures wfVals(vs)
+
+//@ func (vs *ValidatorSet) Size() (r int)
+//@   for C02 C12
+//@   requires vs != nil
+//@   ensures r == len(vs.Validators)
+
+// ---------------------------------------------------------------- C02: vote sets
+
+//@ lemma thresholdEquiv(T int, s int)
+//@   for C02 C01
+//@   requires 0 <= T && T <= 1152921504606846975
+//@   ensures (s >= T*2/3 + 1) <==> (3*s > 2*T)
+//@   ensures (s > T*2/3) <==> (3*s > 2*T)
+
+//@ lemma quorumIntersect(T int, a int, b int)
+//@   for C01 C02
+//@   requires 0 < T && T <= 1152921504606846975 && a <= T && b <= T
+//@   requires a > T*2/3 && b >= T*2/3 + 1
+//@   ensures 3*(a + b - T) > T
+
+//@ func newBlockVotes(peerMaj23 bool, numValidators int) (r *blockVotes)
+//@   for C02
+//@   requires 0 <= numValidators && numValidators <= 281474976710656
+//@   ensures fresh(r) && r.peerMaj23 == peerMaj23 && r.sum == 0 && len(r.votes) == numValidators && fresh(r.votes)
+//@   ensures forall j int :: 0 <= j && j < numValidators ==> r.votes[j] == nil
+//@   ensures numValidators > 0 ==> common.wfBits(r.bitArray) && r.bitArray.Bits == numValidators && fresh(r.bitArray)
+//@   ensures numValidators == 0 ==> r.bitArray == nil
+
+//@ func (vs *blockVotes) addVerifiedVote(vote *Vote, votingPower int64)
+//@   for C02 C01
+//@   requires vs != nil && vote != nil && vote.ValidatorIndex < len(vs.votes)
+//@   requires vs.bitArray != nil ==> common.wfBits(vs.bitArray)
+//@   requires 0 <= votingPower && 0 <= vs.sum && vs.sum + votingPower <= 9223372036854775807
+//@   nooverflow
+//@   modifies vs.votes[_], vs.sum, vs.bitArray.Elems[_]
+//@   ensures old(vs.votes[vote.ValidatorIndex]) == nil ==> vs.sum == old(vs.sum) + votingPower && vs.votes[vote.ValidatorIndex] == vote
+//@   ensures old(vs.votes[vote.ValidatorIndex]) != nil ==> vs.sum == old(vs.sum) && vs.votes[vote.ValidatorIndex] == old(vs.votes[vote.ValidatorIndex])
+//@   ensures forall j int :: 0 <= j && j < len(vs.votes) && j != vote.ValidatorIndex ==> vs.votes[j] == old(vs.votes[j])
+
+//@ func (vs *blockVotes) getByIndex(index int) (r *Vote)
+//@   for C02
+//@   requires vs != nil ==> 0 <= index && index < len(vs.votes)
+//@   ensures vs == nil ==> r == nil
+//@   ensures vs != nil ==> r == vs.votes[index]
+
+// The map key of a block id, exactly as Key() builds it.
+//@ spec func keyOf(b BlockID) string = common.hexHash(b.Hash) + common.hexHash(b.PartsHeader.Hash) + decStr(b.PartsHeader.Total)
+
+//@ func (blockID *BlockID) Key() (r string)
+//@   for C02 C19
+//@   requires blockID != nil
+//@   ensures r == keyOf(*blockID)
+
+// Votes are bucketed by Key(): two block ids with the same key must be the same id, otherwise votes
+// for different ids are tallied together (property: "signed that exact block id").
+//@ lemma keyInjective(a BlockID, b BlockID)
+//@   for C02 C19
+//@   uses hexHashInjective strcatInjective decStrInjective
+//@   requires keyOf(a) == keyOf(b)
+//@   ensures a == b
+
+// wfVS: shape invariant of a VoteSet (lengths agree, buckets well formed, sums in range).
+//@ spec func wfBucket(b *blockVotes, n int) bool = b != nil && len(b.votes) == n && (b.bitArray != nil ==> common.wfBits(b.bitArray)) && 0 <= b.sum && b.sum <= 2305843009213693951
+//@ spec func wfVS(s *VoteSet) bool = s != nil && wfVals(s.valSet) && s.votesByBlock != nil && len(s.votes) == len(s.valSet.Validators) && (s.votesBitArray != nil ==> common.wfBits(s.votesBitArray)) && 0 <= s.sum && s.sum <= 2305843009213693951 && (forall k string :: has(s.votesByBlock, k) ==> wfBucket(s.votesByBlock[k], len(s.votes)))
+//@ spec func totalOf(s *VoteSet) int = sumPow(s.valSet.Validators, len(s.valSet.Validators))
+//@ spec func bucketSum(s *VoteSet, k string) int = ite(has(s.votesByBlock, k), s.votesByBlock[k].sum, 0)
+
+//@ func (voteSet *VoteSet) addVerifiedVote(vote *Vote, blockKey string, votingPower int64) (added bool, conflicting *Vote)
+//@   for C02 C01
+//@   requires wfVS(voteSet) && vote != nil && vote.ValidatorIndex < len(voteSet.votes)
+//@   requires 0 <= votingPower && votingPower <= 1152921504606846975
+//@   nooverflow
+//@   modifies voteSet.votes[_], voteSet.sum, voteSet.maj23, voteSet.votesBitArray.Elems[_], voteSet.votesByBlock[_], voteSet.valSet.totalVotingPower, blockVotes.sum, []*Vote, []uint64
+//@   ensures [countOnce] old(voteSet.votes[vote.ValidatorIndex]) == nil ==> voteSet.sum == old(voteSet.sum) + votingPower
+//@   ensures [noRecount] old(voteSet.votes[vote.ValidatorIndex]) != nil ==> voteSet.sum == old(voteSet.sum)
+//@   ensures [conflictReported] conflicting == old(voteSet.votes[vote.ValidatorIndex])
+//@   ensures [maj23Sound] voteSet.maj23 != old(voteSet.maj23) ==> old(voteSet.maj23) == nil && voteSet.maj23 != nil && *voteSet.maj23 == vote.BlockID && added && 3 * bucketSum(voteSet, blockKey) > 2 * totalOf(voteSet)
+//@   ensures [maj23Complete] added && old(voteSet.maj23) == nil && 3 * bucketSum(voteSet, blockKey) > 2 * totalOf(voteSet) && !(3 * old(bucketSum(voteSet, blockKey)) > 2 * totalOf(voteSet)) ==> voteSet.maj23 != nil
+//@   ensures [bucketCountOnce] added ==> has(voteSet.votesByBlock, blockKey) && (bucketSum(voteSet, blockKey) == old(bucketSum(voteSet, blockKey)) || bucketSum(voteSet, blockKey) == old(bucketSum(voteSet, blockKey)) + votingPower)
+//@   ensures [rejectedUntouched] !added ==> bucketSum(voteSet, blockKey) == old(bucketSum(voteSet, blockKey)) && voteSet.maj23 == old(voteSet.maj23)
+//@   loop 1:
+//@     invariant 0 <= iter && iter <= len(votesByBlock.votes)
+
+//@ func (voteSet *VoteSet) HasTwoThirdsAny() (r bool)
+//@   for C02
+//@   requires voteSet != nil ==> wfVS(voteSet)
+//@   modifies voteSet.valSet.totalVotingPower
+//@   ensures voteSet == nil ==> !r
+//@   ensures voteSet != nil ==> (r <==> 3 * voteSet.sum > 2 * totalOf(voteSet))
+
+//@ func (voteSet *VoteSet) HasAll() (r bool)
+//@   for C02
+//@   requires wfVS(voteSet)
+//@   modifies voteSet.valSet.totalVotingPower
+//@   ensures r <==> voteSet.sum == totalOf(voteSet)
+
+//@ func (voteSet *VoteSet) TwoThirdsMajority() (id BlockID, ok bool)
+//@   for C02
+//@   ensures ok <==> (voteSet != nil && voteSet.maj23 != nil)
+//@   ensures ok ==> id == *voteSet.maj23
+
+//@ func (voteSet *VoteSet) HasTwoThirdsMajority() (r bool)
+//@   for C02
+//@   ensures r <==> (voteSet != nil && voteSet.maj23 != nil)
